@@ -288,6 +288,8 @@ FULL_VOCAB = KS_VOCAB + ["ZADDN", "ZADDN", "ZADDN", "ZREM", "ZINCRBY", "ZINCRBY"
                          "XADDN", "XADDN", "XADDN", "XADDN", "XLEN", "XRANGE", "XTRIM", "XDEL", "XGROUP", "XGROUP", "XREADGROUP", "XREADGROUP",
                          "XACK", "XPENDING", "BGREWRITEAOF"]
 PROFILES = ["direct", "exec", "script", "blocking", "mixed", "mixed"]
+POLICIES = [None, "always", "no", "everysec"]       # None: `--appendonly yes` on the command line (default policy: everysec)
+HIST_PER_LIVE = 10
 
 
 def utf8_ok(args):
@@ -353,6 +355,19 @@ def gen_plan(r, profile, ks_only, n_ops, covered_only=False):
             plan.append(["evalsha", hx(b"return redis.call('SET', ARGV[1], ARGV[2])"), [hx(key), hx(r.choice([b"1", b"v"]))]])
         if profile == "mixed" and not covered_only and r.chance(1, 40):
             plan.append(["select", r.range(0, 15)])
+        if profile in ("mixed", "blocking") and not covered_only and r.chance(1, 25):
+            # a BLPOP/BRPOP served at once in a database other than the one of the previous entry of the file:
+            # fill a list in d1, write in d2, come back to d1 and pop
+            d1, d2 = r.range(0, 15), r.range(0, 15)
+            if d1 != d2:
+                key = r.choice([b"l", b"q"])
+                plan.append(["select", d1])
+                plan.append(["direct", [hx(a) for a in [b"DEL", key]]])
+                plan.append(["direct", [hx(a) for a in [b"RPUSH", key, b"j1", b"j2", b"j3"]]])
+                plan.append(["select", d2])
+                plan.append(["direct", [hx(a) for a in [b"SET", b"k1", b"other"]]])
+                plan.append(["select", d1])
+                plan.append(["bpop", hx(key), r.choice(["L", "R"]), [hx(a) for a in [b"RPUSH", key, b"z"]], "direct"])
     return plan
 
 
@@ -474,6 +489,7 @@ class Runner:
         self.replay_srv = Server("c11-replay")
         self.t0 = time.monotonic()
         self.n_live = 0
+        self.policy = None
         self.sabotage = os.environ.get("VERIF_C11_SABOTAGE", "")     # self-test of the violation path only
         self.evalsha_db0 = self.probe_evalsha_db()
         rep.extra["evalsha_runs_in_db0"] = self.evalsha_db0
@@ -512,11 +528,24 @@ class Runner:
     def now(self):
         return int((time.monotonic() - self.t0) * 1000) + 1000
 
-    def new_live(self):
+    def new_live(self, policy=None):
+        """a fresh live server with the AOF on.  `policy` None: `--appendonly yes` on the command line (default fsync policy,
+        everysec); "always" | "everysec" | "no": a configuration file `appendonly yes` / `appendfsync <policy>` written into
+        the server's scratch directory (the only way to choose the policy)"""
         if self.live is not None:
             self.close_live()
         self.n_live += 1
-        self.live = Server("c11-live%d" % self.n_live, appendonly=True)
+        self.policy = policy
+        if policy is None:
+            self.live = Server("c11-live%d" % self.n_live, appendonly=True)
+        else:
+            d = os.path.join(CACHE, "run", "c11-live%d-%s-%d" % (self.n_live, policy, os.getpid()))
+            shutil.rmtree(d, ignore_errors=True)
+            os.makedirs(d)
+            conf = os.path.join(d, "ferrous.conf")
+            with open(conf, "w") as f:
+                f.write("appendonly yes\nappendfsync %s\n" % policy)
+            self.live = Server("c11-live%d" % self.n_live, appendonly=False, extra=["--config", conf], keep_dir=d)
         self.c = self.live.client()
         self.aof_path = os.path.join(self.live.dir, "appendonly.aof")
         self.hist_on_live = 0
@@ -565,6 +594,7 @@ class Runner:
             a = self.ask("ev cmd %d %d %s %s" % (1 if e.via_exec else 0, now, obs, " ".join(hx(x) for x in raw)))
         n, cur, cov, inm = a.split(" # ")
         e.model_entries, e.model_cur, e.covered, e.in_model = int(n), int(cur), cov == "1", inm == "1"
+        e.entry_db = e.db if e.kind == "wake" else getattr(self, "db", 0)
         return e
 
     def event(self, raw, reply, via_exec=False, **kw):
@@ -577,7 +607,7 @@ class Runner:
         r = self.c.cmd(*raw)
         e = self.event(raw, r)
         if self.check_every_command:
-            self.check_whole_frames("after %s" % raw[0].decode("latin-1"))
+            self.check_now("after %s" % raw[0].decode("latin-1"))
         return e
 
     # ---- the ops of a plan
@@ -585,6 +615,7 @@ class Runner:
         """fresh dataset, run the plan; returns the events (self.events) and the file offset of the history"""
         self.events = []
         self.frame_failures = []
+        self.lag_failures = []
         self.check_every_command = False
         self.blocked_timeouts = 0
         if self.c.cmd("SELECT", "0") != ("s", b"OK") or self.c.cmd("FLUSHALL") != ("s", b"OK"):
@@ -646,7 +677,7 @@ class Runner:
             if c[0].upper() == b"SELECT" and sub == ("s", b"OK"):
                 self.db = int(c[1])         # a queued SELECT selects (and the selection stays after EXEC)
         if self.check_every_command:
-            self.check_whole_frames("after EXEC")
+            self.check_now("after EXEC")
 
     def do_bpop(self, key, left, push, via):
         t = self.direct([b"TYPE", key]).reply
@@ -659,6 +690,10 @@ class Runner:
             if r[0] == "a" and len(r[1]) == 2:
                 e = Event("wake", db=self.db, left=left, key=r[1][0][1], value=r[1][1][1], immediate=True)
                 self.events.append(self.feed(e))
+                last = [x for x in self.events[:-2] if x.kind == "wake" or x.model_entries > 0]
+                self.rep.count("bpop-immediate.%s" % ("db-differs-from-previous-entry" if last and getattr(last[-1], "entry_db", self.db) != self.db else "same-db-as-previous-entry"))
+                if self.check_every_command:
+                    self.check_now("after an immediate %s" % bname.decode())
             return
         if t != ("s", b"none"):
             return
@@ -694,6 +729,8 @@ class Runner:
                 e = Event("wake", db=self.db, left=left, key=key, value=r[1][1][1], immediate=False)
                 self.events.append(self.feed(e))
                 self.rep.evaluations += 1
+                if self.check_every_command:
+                    self.check_now("after a blocked client was served")
             elif pushed_ok:
                 self.blocked_timeouts += 1
         finally:
@@ -701,6 +738,24 @@ class Runner:
             time.sleep(0.01)
 
     # ---- oracles
+    def check_now(self, when):
+        """AT ALL TIMES: the server has answered everything sent so far and is idle; the bytes on disk must be complete frames
+        and must hold every entry of the history so far (append_command hands each entry to the OS — `writer.flush()` —
+        under every fsync policy; fsync itself, i.e. durability against power loss, is not observable here)"""
+        data, cmds, tail = self.check_whole_frames(when)
+        if not self.table or self.lag_failures:
+            return
+        appended = data[self.offset:]
+        want = unhx(self.ask("file"))
+        self.rep.evaluations += 1
+        self.rep.count("at-all-times.checks.%s" % (self.policy or "default-everysec"))
+        if appended != want and want.startswith(appended):
+            have, t, _ = read_aof(appended)
+            exp, _, _ = read_aof(want)
+            self.lag_failures.append({"when": when, "events_acknowledged": len(self.events), "entries_in_file": len(have),
+                                      "entries_expected": len(exp), "tail": t, "bytes_in_file": len(appended), "bytes_expected": len(want),
+                                      "first_missing": [hx(a) for a in exp[len(have)]] if len(have) < len(exp) else None})
+
     def check_whole_frames(self, when):
         data = self.aof()
         cmds, tail, off = read_aof(data)
@@ -748,20 +803,38 @@ def dbs_of(events, db):
     return sorted(s)
 
 
-def judge(R, plan, db, ks_only, fs, tag, check_every_command=False):
+def judge(R, plan, db, ks_only, fs, tag, check_every_command=False, policy="keep"):
     """run one history and evaluate the oracles; returns a dict:
        oracle: list of failures (each with 'cause' None | cause key), disagree: list of model disagreements"""
     rep = R.rep
+    if policy != "keep" and policy != R.policy:
+        R.new_live(policy)
     events = R.run_plan(plan, db, check_every_command)
     res = {"oracle": [], "disagree": [], "active": []}
-    hist = {"db": db, "plan": plan, "ks_only": ks_only}
+    hist = {"db": db, "plan": plan, "ks_only": ks_only, "policy": R.policy, "check_every_command": check_every_command}
+    for lf in R.lag_failures:
+        res["oracle"].append({"kind": "lag", "cause": None, "detail": lf, "history": hist,
+                              "why": "appendfsync %s: %s, with %d events acknowledged and the server idle, the file holds %d of the %d entries of the history so far"
+                                     " (%d of %d bytes%s): replaying it now would not give the live dataset"
+                                     % (R.policy or "default (everysec)", lf["when"], lf["events_acknowledged"], lf["entries_in_file"], lf["entries_expected"],
+                                        lf["bytes_in_file"], lf["bytes_expected"], ", ending in a torn frame" if lf["tail"] == "torn" else "")})
     # (a) whole frames
     data, all_cmds, tail = R.check_whole_frames("after the history")
     for ff in R.frame_failures:
-        res["oracle"].append({"kind": "frames", "cause": None, "why": "the file is not a sequence of complete command frames %s (%s)" % (ff["when"], ff["tail"]),
-                              "detail": ff, "history": hist})
+        res["oracle"].append({"kind": "frames", "cause": None, "why": "appendfsync %s: the file is not a sequence of complete command frames %s (%s)"
+                              % (R.policy or "default (everysec)", ff["when"], ff["tail"]), "detail": ff, "history": hist})
     if tail != "clean":
         return res
+    if not R.lag_failures and R.table:
+        # the same at the end of the history (every history, every policy)
+        want_end = unhx(R.ask("file"))
+        if data[R.offset:] != want_end and want_end.startswith(data[R.offset:]):
+            have, _, _ = read_aof(data[R.offset:])
+            exp, _, _ = read_aof(want_end)
+            res["oracle"].append({"kind": "lag", "cause": None, "history": hist,
+                                  "why": "appendfsync %s: after the history (everything acknowledged, server idle) the file holds %d of its %d entries"
+                                         % (R.policy or "default (everysec)", len(have), len(exp))})
+            return res
     appended = data[R.offset:]
     file_cmds, t2, _ = read_aof(appended)
     if t2 != "clean":
@@ -909,7 +982,8 @@ def kill_tests(R, r, fs, n_burst):
     rep = R.rep
     fails, restart_obs = [], []
     for it in range(n_burst):
-        R.new_live()
+        R.new_live(POLICIES[(it + 2) % len(POLICIES)] if it else "no")
+        rep.count("kill9.policy.%s" % (R.policy or "default-everysec"))
         rr = r.fork("kill%d" % it)
         binary = it % 2 == 1
         sent = []
@@ -938,7 +1012,8 @@ def kill_tests(R, r, fs, n_burst):
         rep.evaluations += 1
         rep.count("kill9.%s.%s" % ("quiescent" if quiescent else "burst", tail))
         rep.nontrivial(("kill9", quiescent, tail, len(cmds) > 0))
-        det = {"kind": "kill9", "cause": None, "quiescent": quiescent, "commands_sent": len(sent), "frames_read": len(cmds), "tail": tail}
+        det = {"kind": "kill9", "cause": None, "appendfsync": R.policy or "default (everysec)", "quiescent": quiescent, "commands_sent": len(sent),
+               "frames_read": len(cmds), "tail": tail, "first_commands_sent": [[hx(a)[:80] for a in c] for c in sent[:5]]}
         if cmds != sent[:len(cmds)]:
             det["why"] = "after kill -9 the complete frames of the file are not a prefix of the commands sent"
             fails.append(det)
@@ -1001,23 +1076,26 @@ CAUSE_MATCH["non-utf8-start"] = "load-rejects-non-utf8"
 
 def shrink(R, o, fs):
     h = o.get("history")
-    if not h or o.get("kind") != "replay":
+    if not h or o.get("kind") not in ("replay", "lag", "frames"):
         return o
+    pol, every = h.get("policy"), h.get("check_every_command", False)
+
+    def bad(res):
+        return [x for x in res["oracle"] if x["kind"] == o["kind"] and x["cause"] == o["cause"] and match_finding(x, fs) is None]
 
     def fails(plan):
         try:
-            res = judge(R, plan, h["db"], False, fs, "shrink")
+            res = judge(R, plan, h["db"], False, fs, "shrink", check_every_command=every, policy=pol)
         except (InternalError, Closed, ProtocolError, OSError, TimeoutError):
             return False
-        return any(x["cause"] == o["cause"] and match_finding(x, fs) is None for x in res["oracle"])
+        return bool(bad(res))
     try:
         if not fails(h["plan"]):
             return o
         small = shrink_list(h["plan"], fails, max_steps=60)
-        res = judge(R, small, h["db"], False, fs, "shrink")
-        for x in res["oracle"]:
-            if x["cause"] == o["cause"] and match_finding(x, fs) is None:
-                return x
+        res = judge(R, small, h["db"], False, fs, "shrink", check_every_command=every, policy=pol)
+        if bad(res):
+            return bad(res)[0]
     except (InternalError, Closed, ProtocolError, OSError, TimeoutError):
         pass
     return o
@@ -1044,7 +1122,10 @@ def main(tier, seed):
                 "with binary keys/values, through four paths (direct, MULTI/EXEC incl. SELECT inside, EVAL wrapper, BLPOP/BRPOP immediate and served) "
                 "in db 0 and in another db; after each history: own-reader parse of the AOF (whole frames), bytes appended == Lean log, replay of the "
                 "file into a fresh server and comparison of canonical dumps (values + TTL presence) of every database touched, repaired-log replay to "
-                "attribute differences to causes; kill -9 at rest and mid-burst; restart on the file. "
+                "attribute differences to causes; kill -9 at rest and mid-burst; restart on the file. The fsync policy is a dimension: blocks of 10 histories "
+                "per live server under {command-line default, always, no, everysec} (configuration file written by the check); AT ALL TIMES: after EVERY "
+                "acknowledged command of a third of the histories (and of the first history of every server) the bytes on disk must be complete frames and "
+                "equal the model's log so far, under every policy (append_command flushes per append under all three). "
                 "distinct = (effective command, path, reply class, logged?, db != 0) tuples reached")
     rep.assumptions = [
         "TTLs used are >= 100 s, so no key expires during a history or its replay (the theorems speak about TTL presence, not remaining time)",
@@ -1080,10 +1161,16 @@ def main(tier, seed):
             covered_only = rr.chance(1, 3)
             db = 0 if covered_only or rr.chance(1, 2) else rr.range(1, 15)
             plan = gen_plan(rr, profile, ks_only, rr.range(15, 45), covered_only)
-            if R.hist_on_live >= 12:
-                R.new_live()
+            # the fsync policy is a dimension of the run: one block of histories per live server, the policies in rotation
+            # (the first block keeps the command-line default, the others get a configuration file)
+            policy = POLICIES[(h // HIST_PER_LIVE) % len(POLICIES)]
+            if R.hist_on_live >= HIST_PER_LIVE or R.policy != policy:
+                R.new_live(policy)
             R.hist_on_live += 1
-            res = judge(R, plan, db, ks_only, fs, "h%d" % h, check_every_command=(h % 10 == 0))
+            every = h % 3 == 0 or R.hist_on_live == 1
+            rep.count("policy.%s%s" % (policy or "default-everysec", ".judged-after-every-command" if every else ""))
+            rep.nontrivial(("policy", policy, profile, every))
+            res = judge(R, plan, db, ks_only, fs, "h%d" % h, check_every_command=every)
             oracle += res["oracle"]
             disagree += res["disagree"]
             rep.count("profile.%s.%s%s" % (profile, "db0" if db == 0 else "dbN", ".covered-only" if covered_only else ""))
@@ -1105,7 +1192,8 @@ def main(tier, seed):
         for fid, f in confirmed.items():
             rep.known(fid, f["what"])
         if new:
-            new.sort(key=lambda o: len(json.dumps(o.get("history", {}))))
+            # prefer a failure that carries a history (replayable, shrinkable), the smallest first
+            new.sort(key=lambda o: (0 if o.get("history") else 1, len(json.dumps(o.get("history", {})))))
             o = shrink(R, new[0], fs)
             h = o.get("history") or {}
             rep.violation("C11 %s oracle fails on the implementation: %s" % (o["kind"], o["why"]),
@@ -1152,7 +1240,9 @@ def replay(path):
     fs = findings()
     R = Runner(rep, source_facts())
     try:
-        res = judge(R, h["plan"], h["db"], h.get("ks_only", False), fs, "replay")
+        res = judge(R, h["plan"], h["db"], h.get("ks_only", False), fs, "replay", check_every_command=h.get("check_every_command", False),
+                    policy=h.get("policy"))
+        print("appendfsync: %s" % (h.get("policy") or "default (everysec)"))
         for line in show_plan(h["plan"]):
             print("  " + line)
         print("db: %d   replay == live: %s   all events covered: %s" % (h["db"], res.get("same"), res.get("covered")))
